@@ -384,14 +384,14 @@ def run(ctx):
               cpu="sliced_index_array_cpu" in present, empty="getitem_empty_lists" in present)
     mism = []
     # (1) PySlice.indices against CPython on the whole exhaustive domain (n <= 5) + random larger ones
-    sl = slice_entries(ctx.rng, ctx.budget(1500, 20000))
+    sl = slice_entries(ctx.rng, ctx.budget(1500, 60000))
     sfail, serr = L.eval_slices("c20_slices", sl)
     if serr:
         mism.append(dict(oracle_fail=False, harness_error=serr))
     elif sfail:
         mism.append(dict(oracle_fail=False, what="coq/PySlice.v indices differs from slice.indices", cases=sfail[:10]))
     # (2) operator level
-    cases, pools, n_exh = gen_cases(ctx, present, ctx.budget(60, 900), ctx.budget(1, 2))
+    cases, pools, n_exh = gen_cases(ctx, present, ctx.budget(60, 2500), ctx.budget(1, 3))
     obs = [L.run_queries(c) for c in cases]
     dense = [T.dense(c["tree"]) for c in cases]
     judged = []
